@@ -336,6 +336,144 @@ def scan_module_state(repo: Path):
     return sorted(out)
 
 
+FOCUS_ATTRS = {'item', 'axis', 'position', 'size', 'variables'}
+
+
+def scan_focus(repo: Path):
+    """(a) for every generator method `iter_*` of XPathContext: does it write the focus, and if so is every `yield`
+    inside a `try` whose `finally` writes the focus back?   (b) in all other modules: every store to
+    `<context>.item/axis/position/size/variables` (assignment or loop target) and every `for … in <context>.iter_*()`
+    loop, with how the caller's focus is protected:
+      copy            the receiver is `copy(context)` / a name bound to a copy or a new context earlier in the function
+      finally         a later `finally:` of the same function stores the same attribute of the same receiver
+      focus-generator the store is the target of / lies inside a loop over `….select_with_focus(context)` (restores in finally)
+      iterator        a loop over `context.iter_*()` (protected by (a))
+      unprotected     none of these
+    -> (iterators, sites)"""
+    ctx_tree = ast.parse((repo / 'elementpath' / 'xpath_context.py').read_text())
+    iterators = []
+    for n in ast.walk(ctx_tree):
+        if isinstance(n, ast.ClassDef) and n.name == 'XPathContext':
+            for f in n.body:
+                if isinstance(f, ast.FunctionDef) and f.name.startswith('iter_') and \
+                        any(isinstance(x, (ast.Yield, ast.YieldFrom)) for x in ast.walk(f)):
+                    writes = any(isinstance(x, ast.Attribute) and isinstance(x.ctx, ast.Store) and
+                                 isinstance(x.value, ast.Name) and x.value.id == 'self' and x.attr in FOCUS_ATTRS
+                                 for x in ast.walk(f))
+                    ok = True
+
+                    def has_store(st):
+                        return any(isinstance(y, ast.Attribute) and isinstance(y.ctx, ast.Store) and isinstance(y.value, ast.Name) and
+                                   y.value.id == 'self' and y.attr in FOCUS_ATTRS for y in ast.walk(st))
+
+                    def has_yield(st):
+                        return any(isinstance(y, (ast.Yield, ast.YieldFrom)) for y in ast.walk(st))
+
+                    def process(stmts, dirty, infin):
+                        """a `yield` reached after a store to the focus (`dirty`) must lie in a `try` whose `finally` stores it back"""
+                        nonlocal ok
+                        for st in stmts:
+                            if isinstance(st, ast.Try):
+                                restores = any(has_store(b) for b in st.finalbody)
+                                process(st.body, dirty, infin or restores)
+                                for h in st.handlers:
+                                    process(h.body, dirty, infin or restores)
+                                process(st.orelse, dirty, infin or restores)
+                            elif isinstance(st, (ast.For, ast.While, ast.If, ast.With)):
+                                d = dirty or (isinstance(st, ast.For) and has_store(st.target))
+                                process(st.body, d, infin)
+                                process(getattr(st, 'orelse', []), dirty, infin)
+                            else:
+                                if has_yield(st) and dirty and not infin:
+                                    ok = False
+                                if has_store(st):
+                                    dirty = True
+                    process(f.body, False, False)
+                    iterators.append((f.name, 'no-focus-write' if not writes else 'finally' if ok else 'plain'))
+    sites = set()
+    for p in sorted((repo / 'elementpath').rglob('*.py')):
+        f = str(p.relative_to(repo))
+        if f.endswith('xpath_context.py'):
+            continue
+        tree = ast.parse(p.read_text())
+
+        def scan_func(fn, qual):
+            params = {a.arg for a in fn.args.args + fn.args.kwonlyargs}
+            copies = {}
+            finals = []        # (lineno of the finally's first statement, receiver text, attr)
+            for n in ast.walk(fn):
+                if isinstance(n, ast.Assign) and len(n.targets) == 1 and isinstance(n.targets[0], ast.Name):
+                    v = n.value
+                    if isinstance(v, ast.Call):
+                        fname = v.func.id if isinstance(v.func, ast.Name) else (v.func.attr if isinstance(v.func, ast.Attribute) else '')
+                        if fname in ('copy', 'deepcopy', '__copy__') or fname.endswith('Context'):
+                            copies.setdefault(n.targets[0].id, n.lineno)
+                if isinstance(n, ast.Try) and n.finalbody:
+                    for b in n.finalbody:
+                        for y in ast.walk(b):
+                            if isinstance(y, ast.Attribute) and isinstance(y.ctx, ast.Store) and y.attr in FOCUS_ATTRS:
+                                finals.append((b.lineno, ast.unparse(y.value), y.attr))
+
+            def recv_is_copy(recv, lineno):
+                if isinstance(recv, ast.Call) and isinstance(recv.func, ast.Name) and recv.func.id == 'copy':
+                    return True
+                return isinstance(recv, ast.Name) and recv.id in copies and copies[recv.id] <= lineno
+
+            final_stmts = {id(b) for n in ast.walk(fn) if isinstance(n, ast.Try) for b in n.finalbody}
+
+            def walk(node, in_focus_gen):
+                for c in ast.iter_child_nodes(node):
+                    if isinstance(c, (ast.FunctionDef, ast.AsyncFunctionDef, ast.ClassDef, ast.Lambda)):
+                        continue
+                    if id(c) in final_stmts:      # the restoring statements themselves
+                        continue
+                    inner = in_focus_gen
+                    targets = []
+                    if isinstance(c, ast.Assign):
+                        targets = c.targets
+                    elif isinstance(c, (ast.AugAssign, ast.AnnAssign)):
+                        targets = [c.target]
+                    elif isinstance(c, (ast.For, ast.AsyncFor)):
+                        targets = [c.target]
+                        it = c.iter
+                        if isinstance(it, ast.Call) and isinstance(it.func, ast.Attribute):
+                            if it.func.attr == 'select_with_focus':
+                                inner = True
+                            elif it.func.attr.startswith('iter_') and 'context' in ast.unparse(it.func.value).lower():
+                                early = any(isinstance(x, (ast.Break, ast.Return)) for b in c.body for x in ast.walk(b))
+                                prot = 'copy' if recv_is_copy(it.func.value, c.lineno) else 'iterator'
+                                sites.add((f, qual, f'for … in {ast.unparse(it.func.value)}.{it.func.attr}()' +
+                                           (' [early exit]' if early else ''), prot))
+                    for t in targets:
+                        for y in ast.walk(t):
+                            if isinstance(y, ast.Attribute) and isinstance(y.ctx, ast.Store) and y.attr in FOCUS_ATTRS and \
+                                    'context' in ast.unparse(y.value).lower():
+                                recv = ast.unparse(y.value)
+                                if recv_is_copy(y.value, c.lineno):
+                                    prot = 'copy'
+                                elif inner:
+                                    prot = 'focus-generator'
+                                elif any(ln > c.lineno and r == recv and a == y.attr for ln, r, a in finals):
+                                    prot = 'finally'
+                                else:
+                                    prot = 'unprotected'
+                                sites.add((f, qual, f'{recv}.{y.attr} =', prot))
+                    walk(c, inner)
+            walk(fn, False)
+
+        def visit(node, stack):
+            for c in ast.iter_child_nodes(node):
+                if isinstance(c, ast.ClassDef):
+                    visit(c, stack + [c.name])
+                elif isinstance(c, (ast.FunctionDef, ast.AsyncFunctionDef)):
+                    scan_func(c, '.'.join(stack + [c.name]))
+                    visit(c, stack + [c.name])
+                else:
+                    visit(c, stack)
+        visit(tree, [])
+    return sorted(iterators), sorted(sites)
+
+
 def lean_str(s: str) -> str:
     return '"' + s.replace('\\', '\\\\').replace('"', '\\"').replace('\n', ' ') + '"'
 
@@ -359,13 +497,20 @@ def emit(repo: Path, lean_dir: Path) -> dict:
               'class attributes, attributes of imported modules; memoising decorators; mutable default arguments -/',
               'def moduleWrites : List (String × String × String × String) := [']
     lines.append(',\n'.join('  (' + ', '.join(lean_str(x) for x in s) + ')' for s in module) + ']')
+    iterators, focus = scan_focus(repo)
+    lines += ['', '/-- (method, protection): the generator methods `iter_*` of XPathContext -/',
+              'def contextIterators : List (String × String) := [']
+    lines.append(',\n'.join('  (' + ', '.join(lean_str(x) for x in s) + ')' for s in iterators) + ']')
+    lines += ['', '/-- (file, function, site, protection): stores to the focus of a context and loops over its axis iterators, outside',
+              'xpath_context.py -/', 'def focusSites : List (String × String × String × String) := [']
+    lines.append(',\n'.join('  (' + ', '.join(lean_str(x) for x in s) + ')' for s in focus) + ']')
     lines += ['', 'end EPV.Gen.C05', '']
     text = '\n'.join(lines)
     gen = lean_dir / 'EPV' / 'Gen' / 'C05Sites.lean'
     gen.parent.mkdir(exist_ok=True)
     if not gen.exists() or gen.read_text() != text:
         gen.write_text(text)
-    return {'tree': tree, 'binds': binds, 'token': token, 'module': module}
+    return {'tree': tree, 'binds': binds, 'token': token, 'module': module, 'iterators': iterators, 'focus': focus}
 
 
 if __name__ == '__main__':
